@@ -1013,16 +1013,12 @@ Fixpoint perms {A} (l : list A) : list (list A) :=
   match l with [] => [[]] | x :: t => flat_map (insert_all x) (perms t) end.
 Definition g_case := (list gfeat * list (list nat))%type.
 (* unit level: the list is the iteration order of the very set that was passed in; groups in dict order.
-   chk_group: the faithful model (dictionary keyed by the hash integer); chk_group_eq: grouping by equality of
-   (options, frameworks) = the specification = the repaired code.  Outside kf_hash_conflation the two coincide
-   (C15_grouping_by_equality_partial); inside, the observation must be one of the two. *)
+   group_features = the repaired code: dictionary keyed by (options, frameworks, type), found by hash AND == -- by
+   C15_grouping_by_equality this is grouping by equality.  The former known-defect domains (the kf_ predicates) are only counted. *)
 Definition chk_group (c : g_case) : bool := part_ordered (group_features (fst c)) (snd c).
-Definition chk_group_eq (c : g_case) : bool := part_ordered (group_features_eq (fst c)) (snd c).
 (* end to end: the set order inside the planner is not observable: some order must explain the calls *)
 Definition chk_e2e (c : g_case) : bool := existsb (fun p => part_unordered (group_features p) (snd c)) (perms (fst c)).
-Definition chk_e2e_eq (c : g_case) : bool := existsb (fun p => part_unordered (group_features_eq p) (snd c)) (perms (fst c)).
 Definition chk_not_ambiguous (c : g_case) : bool := negb (kf_ambiguous (map (item_of (fst c)) (fst c))).
-Definition chk_not_ambiguous_eq (c : g_case) : bool := negb (kf_ambiguous (map (item_of_eq (fst c)) (fst c))).
 Definition chk_not_conflated (c : g_case) : bool := negb (kf_hash_conflation (fst c)).
 Definition chk_not_canon (c : g_case) : bool := negb (kf_canon_conflation (fst c)).
 Definition chk_not_collision (c : g_case) : bool := negb (kf_hash_collision (fst c)).
@@ -1245,55 +1241,45 @@ def check_grouping(rep: vlib.Reporter, rng: random.Random, n: int) -> bool:
     def ev(name: str, chk: str) -> Tuple[set, dict]:
         bad_, info_ = vlib.run_cases(P, name, REQ_G, chk, terms, extra_defs=EXTRA_G, case_type="g_case", shard=250)
         return set(bad_), info_
-    bad_def, info = ev("grouping", "chk_group")                 # observed != faithful model (hash integers)
-    bad_eq, _ = ev("grouping_eq", "chk_group_eq")                # observed != grouping by equality
-    dom = {"amb": ev("grouping_amb", "chk_not_ambiguous")[0], "amb_eq": ev("grouping_amb_eq", "chk_not_ambiguous_eq")[0],
-           "conf": ev("grouping_conf", "chk_not_conflated")[0], "canon": ev("grouping_canon", "chk_not_canon")[0],
-           "coll": ev("grouping_coll", "chk_not_collision")[0]}
+    bad, info = ev("grouping", "chk_group")                      # observed != model (grouping by dictionary key = by equality)
+    dom = {"amb": ev("grouping_amb", "chk_not_ambiguous")[0], "conf": ev("grouping_conf", "chk_not_conflated")[0],
+           "canon": ev("grouping_canon", "chk_not_canon")[0], "coll": ev("grouping_coll", "chk_not_collision")[0]}
     rep.count(len(terms))
-    # the decidable domains, computed twice: on the real objects (==, hash(), _make_hashable) and in Coq (py_eq, canon, hnorm)
-    dom_diff = {k: sorted(dom[k] ^ {i for i, d in enumerate(pydom) if d[k]})[:5] for k in dom}
+    # the decidable domains, computed twice: on the real objects (==, hash(), _make_hashable) and in Coq (py_eq, canon, hnorm).
+    # conf / canon / coll are the domains of the two repaired findings (regression inputs); comparing them keeps the hash model tied
+    pykey = {"amb": "amb_eq", "conf": "conf", "canon": "canon", "coll": "coll"}
+    dom_diff = {k: sorted(dom[k] ^ {i for i, d in enumerate(pydom) if d[pykey[k]]})[:5] for k in dom}
     if any(dom_diff.values()) or dom["conf"] != (dom["canon"] | dom["coll"]):
         i0 = next((v[0] for v in dom_diff.values() if v), 0)
-        rep.finding("kf-domain-mismatch", "known-finding domains (ambiguous / same canonical form / hash collision) classified differently on the "
+        rep.finding("kf-domain-mismatch", "domains (ambiguous / same canonical form / hash collision) classified differently on the "
                     f"real objects and in Coq: case indices {dom_diff}", {"kind": "grouping", **descs[i0]})
         found = True
     hits: Dict[str, Any] = {}
-    outcome = {"outside_domains": 0, "in_domain_defect_present": 0, "in_domain_as_specified": 0, "in_domain_models_agree": 0}
-    nbad = 0
-    for i in range(len(terms)):
-        okd, oke = i not in bad_def, i not in bad_eq
+    for i in sorted(bad):
         in_dom = i in dom["conf"]
-        if (not in_dom and not (okd and oke)) or (in_dom and not (okd or oke)):
-            nbad += 1
-            report(rep, "grouping", "grouping:" + json.dumps(descs[i])[:300], "group_features_by_compute_framework_and_options differs from the model"
-                   + (" (inside the hash-conflation domain: neither the hash-keyed model nor grouping by equality)" if in_dom else ""),
-                   {"kind": "grouping", **descs[i]})
-            found = True
+        report(rep, "grouping", "grouping:" + json.dumps(descs[i])[:300], "group_features_by_compute_framework_and_options differs from the model"
+               + (" (features with unequal group options that have the same hash integer: the repaired findings "
+                  "C15-grouping-conflates-list-tuple / C15-grouping-hash-collision)" if in_dom else ""),
+               {"kind": "grouping", **descs[i], "pairs_against_property_text": mism[i]})
+        found = True
+    for i in range(len(terms)):
+        if i in bad or not mism[i]:
             continue
-        defect_here = in_dom and okd and not oke
-        outcome["outside_domains" if not in_dom else "in_domain_defect_present" if defect_here else
-                "in_domain_as_specified" if (oke and not okd) else "in_domain_models_agree"] += 1
-        if defect_here:
-            for k, key in (("canon", KF_CANON), ("coll", KF_COLL)):
-                other = "coll" if k == "canon" else "canon"
-                if i in dom[k] and i not in dom[other]:
-                    hits.setdefault(key, {"kind": "grouping", **descs[i], "pairs_against_property_text": mism[i]})
-        if mism[i] and not defect_here:
-            if (okd and i in dom["amb"]) or (oke and i in dom["amb_eq"]):
-                hits.setdefault("C15-untyped-joins-first-typed-group", {"kind": "grouping", **descs[i], "pairs_against_property_text": mism[i]})
-            else:
-                x, y, tog = mism[i][0]
-                report(rep, "agree", "agree:" + json.dumps(descs[i])[:300], f"features {x},{y}: grouped together = {tog} but agreement of "
-                       f"(group options, framework, type) = {not tog}", {"kind": "grouping", **descs[i]})
-                found = True
+        if i in dom["amb"]:
+            hits.setdefault("C15-untyped-joins-first-typed-group", {"kind": "grouping", **descs[i], "pairs_against_property_text": mism[i]})
+        else:
+            x, y, tog = mism[i][0]
+            report(rep, "agree", "agree:" + json.dumps(descs[i])[:300], f"features {x},{y}: grouped together = {tog} but agreement of "
+                   f"(group options, framework, type) = {not tog}", {"kind": "grouping", **descs[i]})
+            found = True
     rep.add("grouping", {**info, "cases": len(terms), "features_per_case": dict(sorted(st["features"].items())),
                          "groups_per_case": dict(sorted(st["groups"].items())),
-                         "domains": {k: len(v) for k, v in dom.items()}, "domain_outcomes": outcome,
+                         "domains": {k: len(v) for k, v in dom.items()},
+                         "regression_cases_unequal_options_one_hash_integer": len(dom["conf"]),
                          "cases_with_pairs_against_property_text": sum(1 for m in mism if m),
                          "pairs_checked_against_property_text": st["pairs_checked_against_property_text"], "untyped_joined_typed_group": st["with_untyped_join"],
                          "context_stripped_same_partition": st["context_stripped_same"], "skipped_unhashable": st["skipped_unhashable"],
-                         "disagreements": nbad})
+                         "disagreements": len(bad)})
     w = grouping_witnesses()
     rep.coverage["grouping"]["known_finding_witnesses"] = w
     if w["collision"]["hash_model_wrong"]:
@@ -1303,11 +1289,16 @@ def check_grouping(rep: vlib.Reporter, rng: random.Random, n: int) -> bool:
     if "C15-untyped-joins-first-typed-group" in hits or w["untyped"]["defect_present"]:
         rep.finding("C15-untyped-joins-first-typed-group", "untyped feature compatible with two typed groups",
                     hits.get("C15-untyped-joins-first-typed-group") or w["untyped"])
-    if KF_CANON in hits or w["conflation"]["defect_present"]:
-        rep.finding(KF_CANON, "features with unequal group options (same canonical form) computed together", hits.get(KF_CANON) or w["conflation"])
-    if KF_COLL in hits or w["collision"]["defect_present"]:
-        rep.finding(KF_COLL, "features with unequal group options (different canonical forms, same hash integer) computed together",
-                    hits.get(KF_COLL) or w["collision"])
+    # repaired findings (fixed: entries suppress nothing): the committed witnesses must be computed separately
+    if w["conflation"]["defect_present"]:
+        rep.finding(KF_CANON, "features with unequal group options (same canonical form: {'c': [1, 2]} / {'c': (1, 2)}) are grouped together",
+                    w["conflation"])
+        found = True
+    if w["collision"]["defect_present"]:
+        tog = [c["pair"] for c in w["collision"]["pairs"] if c["together"]]
+        rep.finding(KF_COLL, f"features with unequal group options {{'c': x}} / {{'c': y}} whose hashes collide are grouped together: (x, y) in {tog}",
+                    w["collision"])
+        found = True
     rep.sample({"kind": "grouping", **descs[0]})
     return found
 
@@ -1400,19 +1391,12 @@ def run_request(feats: List[Any]) -> Tuple[Optional[str], List[Any]]:
         return f"{type(e).__name__}:{tag} {str(e)[:160]}", list(_calls)
 
 
-def kf_keys_of(feats: List[Any]) -> List[str]:
-    """which of the two conflation findings a request belongs to (only when it is in exactly one of the two domains)"""
-    c, h = py_canon_conflation(feats), py_collision(feats)
-    return [KF_CANON] if (c and not h) else [KF_COLL] if (h and not c) else []
-
-
 def check_e2e(rep: vlib.Reporter, rng: random.Random, n: int) -> bool:
     from mloda.user import Feature, Options
     found = False
     terms, descs, dterms, ddescs, gterms2 = [], [], [], [], []
     st = {"runs": 0, "exceptions": {}, "root_calls": {}, "context_only_requests": 0, "context_only_single_call": 0,
           "derived_runs": 0, "derived_root_calls": {}, "conflation_domain_runs": 0, "conflation_domain_run_failures": 0}
-    kf_conf: Dict[str, dict] = {}
     # A: direct requests on the root group (group / context / declared type variations)
     for _ in range(n):
         k = rng.randrange(1, 6)
@@ -1431,12 +1415,7 @@ def check_e2e(rep: vlib.Reporter, rng: random.Random, n: int) -> bool:
         if exc:
             st["exceptions"][exc[:60]] = st["exceptions"].get(exc[:60], 0) + 1
             if "[Features have different options]" in exc and py_conflation(feats):
-                # known-finding domains: unequal options with one hash integer were put into one step, which then fails its
-                # own equal-options validation (defect present; after a repair this does not happen any more)
-                st["conflation_domain_run_failures"] += 1
-                for key in kf_keys_of(feats):
-                    kf_conf.setdefault(key, {"kind": "e2e", "feats": ds, "exception": exc[:120]})
-                continue
+                st["conflation_domain_run_failures"] += 1        # the repaired findings: reported as a violation below
             report(rep, "e2e-exc", "e2e-exc:" + json.dumps(ds)[:300], "run_all raised on a request over one root group: " + exc, {"kind": "e2e", "feats": ds})
             found = True
             continue
@@ -1476,9 +1455,6 @@ def check_e2e(rep: vlib.Reporter, rng: random.Random, n: int) -> bool:
             st["exceptions"][exc[:60]] = st["exceptions"].get(exc[:60], 0) + 1
             if "[Features have different options]" in exc and py_conflation(feats):
                 st["conflation_domain_run_failures"] += 1
-                for key in kf_keys_of(feats):
-                    kf_conf.setdefault(key, {"kind": "e2e_derived", "inis": inis, "exception": exc[:120]})
-                continue
             report(rep, "e2e-derived-exc", "e2e-derived-exc:" + json.dumps(inis)[:300], "run_all raised on derived features: " + exc, {"kind": "e2e_derived", "inis": inis})
             found = True
             continue
@@ -1499,29 +1475,17 @@ def check_e2e(rep: vlib.Reporter, rng: random.Random, n: int) -> bool:
         bad_, info_ = vlib.run_cases(P, name, REQ_G, chk, tt, extra_defs=EXTRA_G, case_type="g_case", shard=100)
         return set(bad_), info_
 
-    def judge(name: str, tt: List[str]) -> Tuple[List[int], dict, Dict[str, int]]:
-        """calls explained by the faithful model; inside the hash-conflation domain also by grouping by equality (repaired)"""
-        bad_def, info_ = ev(name, "chk_e2e", tt)
-        bad_eq, _ = ev(name + "_eq", "chk_e2e_eq", tt)
-        conf, _ = ev(name + "_conf", "chk_not_conflated", tt)
-        out = {"outside_domains": 0, "in_domain_defect_present": 0, "in_domain_as_specified": 0, "in_domain_models_agree": 0}
-        bad_ = []
-        for i in range(len(tt)):
-            okd, oke = i not in bad_def, i not in bad_eq
-            if (i not in conf and not (okd and oke)) or (i in conf and not (okd or oke)):
-                bad_.append(i)
-            else:
-                out["outside_domains" if i not in conf else "in_domain_defect_present" if not oke else
-                    "in_domain_as_specified" if not okd else "in_domain_models_agree"] += 1
-        return bad_, info_, out
-    bad, info, out_a = judge("e2e", terms)
+    bad_s, info = ev("e2e", "chk_e2e", terms)
+    conf_a, _ = ev("e2e_conf", "chk_not_conflated", terms)
+    bad = sorted(bad_s)
     bad_d, _ = vlib.run_cases(P, "e2e_derived", REQ_G, "chk_derived", dterms, extra_defs=EXTRA_G, case_type="d_case", shard=100)
-    bad_g, _, out_b = judge("e2e_derived_groups", gterms2)
+    bad_g = sorted(ev("e2e_derived_groups", "chk_e2e", gterms2)[0])
+    conf_b, _ = ev("e2e_derived_groups_conf", "chk_not_conflated", gterms2)
     rep.count(len(terms) + len(dterms))
     rep.coverage["traces_validated_against_impl"] = len(terms) + len(dterms)
     rep.add("e2e", {**info, **st, "root_calls": dict(sorted(st["root_calls"].items())),
                     "derived_root_calls": dict(sorted(st["derived_root_calls"].items())),
-                    "domain_outcomes_direct": out_a, "domain_outcomes_derived": out_b,
+                    "regression_runs_unequal_options_one_hash_integer": len(conf_a) + len(conf_b),
                     "disagreements": len(bad) + len(bad_d) + len(bad_g)})
     for i in bad[:5]:
         rep.finding("e2e:" + json.dumps(descs[i])[:300], "the calculation calls of run_all (number / composition) are not explained by the "
@@ -1531,16 +1495,14 @@ def check_e2e(rep: vlib.Reporter, rng: random.Random, n: int) -> bool:
         rep.finding("e2e-derived:" + json.dumps(ddescs[i])[:300], "input features of derived features: merged options / number of root calls differ "
                     "from o_merge + grouping model", {"kind": "e2e_derived", "inis": ddescs[i]})
         found = True
-    # the two committed end-to-end witnesses
+    # the two committed end-to-end witnesses of the repaired findings: two separate calculation calls, no exception
     w = e2e_witnesses()
     rep.coverage["e2e"]["known_finding_witnesses"] = w
     for key, wk in ((KF_CANON, "list_tuple"), (KF_COLL, "minus_one_minus_two")):
-        if not (w[wk]["defect_present"] or w[wk]["as_specified"]):
-            rep.finding("e2e-witness:" + wk, f"run_all on the committed witness neither shows the known defect nor two separate calls: {w[wk]}", w[wk])
+        if not w[wk]["as_specified"]:
+            rep.finding(key, "run_all on two requested columns of one root group whose group options are unequal but have the same hash integer: "
+                        f"exception {w[wk]['exception']!r}, root calculation calls {w[wk]['root_calls']} (specified: [['c0'], ['c1']])", w[wk])
             found = True
-        if key in kf_conf or w[wk]["defect_present"]:
-            rep.coverage["e2e"].setdefault("known_finding_run_failures", {})[key] = kf_conf.get(key) or w[wk]
-            rep.finding(key, "run_all fails with 'Features have different options'", kf_conf.get(key) or w[wk])
     if descs:
         rep.sample({"kind": "e2e", "feats": descs[0]})
     return found
@@ -1582,8 +1544,8 @@ def run(rep: vlib.Reporter, tier: str, seed: int) -> None:
         "Python hash() of str / int / bool / None / tuple / frozenset / Enum respects ==; which DIFFERENT canonical forms get one hash "
         "integer is modelled by Model/Grouping.v hnorm (int: sign * (|z| mod 2^61-1) with -1 -> -2; '' = 0; Enum member = its name; "
         "tuple / frozenset elementwise) and otherwise assumed collision-free: non-empty str (SipHash, not computed), None, the "
-        "tuple / frozenset combiners.  Not used by any theorem; tested on every generated request (unit-level grouping tie and the "
-        "Python-vs-Coq comparison of the three domain predicates)",
+        "tuple / frozenset combiners.  Since the repair (dictionary keyed by the values) the hash only matters through == => equal hash; "
+        "the hash model is still compared with the real hash() on every generated request (Python-vs-Coq comparison of the domain predicates)",
         "value fragment: dict keys are atoms (str incl. str-Enum, int, bool, None, plain Enum member); no floats; opaque objects are "
         "Enum members (hashable) or identity-equal unhashable objects; Feature objects inside options only as child_options[in_features] "
         "(frozenset of Features or a single Feature, in group or context of the child options)",
